@@ -124,6 +124,47 @@ PROPS = {
                       "character, an uninterpreted predicate), rfind(\"\\n\\n\"), str::get, split_terminator, Vec::split_off/extend_from_slice (vstd), "
                       "io::Error::new (payload dropped by the shim).",
     },
+    "C10": {
+        "units": ["distinfo"],
+        "design_ref": "DESIGN.md section 8 / C10",
+        "replay": "distinfo",
+        "level_text": "Unbounded proof on the real functions: Distinfo::as_bytes / Entry::as_bytes / push_checksum_line / push_size_line write exactly "
+                      "print_distinfo(view): RCS Id (or $NetBSD$), blank line, per distfile its checksum lines in order then its size line, per "
+                      "patch its checksum lines - the file name emitted as its raw bytes - and Distinfo::from_bytes is proved equal to "
+                      "parse_distinfo (C11). The two compositions parse(print(d)) ~ d and print(parse(t)) == t for canonical t are NOT yet "
+                      "lemmas: they are checked by the bounded search of the replay crate (labelled bounded).",
+        "level_note": VERUS_TRUST + "indexmap::IndexMap as an opaque insertion-ordered map keyed by std::path equality (values(), insert, get, get_mut "
+                      "with prophecy-style &mut contract); PathBuf/OsString byte views; format!() shims (`{}` of Digest = its Display, proved to be the "
+                      "name table; `{}` of u64 assumed to re-parse); Digest Display via Formatter shim.",
+    },
+    "C11": {
+        "units": ["distinfo"],
+        "design_ref": "DESIGN.md section 8 / C11",
+        "replay": "distinfo",
+        "level_text": "Unbounded proof on the real functions: Line::from_bytes == line_spec (leading blanks, comments, '$NetBSD: ' lines, "
+                      "fields = maximal runs of non-ASCII-whitespace bytes, '(name)' taken byte for byte, '=' required, Size needs a u64, "
+                      "algorithm names case-insensitive; everything else ignored); EntryType::from == the statement's patch classification; "
+                      "update_size/update_checksum are proved with full frames (target map only; an existing name keeps its position and gets "
+                      "the size set / checksum appended, a new name is appended; the other map, the RCS Id and every other entry unchanged); "
+                      "Distinfo::from_bytes == fold of these steps over the '\\n'-separated lines.",
+        "level_note": VERUS_TRUST + "IndexMap assumed contract (keys compared by std::path equality: names are identified up to repeated '/' and '.' "
+                      "components, pkey uninterpreted); classification is stated over the lossily decoded final path component (Path::file_name, "
+                      "to_string_lossy assumed); shims for slice split/starts_with, String::from_utf8, u64::from_str, str::to_lowercase (Unicode, "
+                      "uninterpreted; ASCII case folding assumed for ASCII names).",
+    },
+    "C12": {
+        "units": ["distinfo"],
+        "design_ref": "DESIGN.md section 8 / C12",
+        "replay": "distinfo",
+        "level_text": "Unbounded proof on the real functions, over an uninterpreted world (w_len(path), w_digest(algorithm, kind, path)): "
+                      "Entry::verify_size returns Ok(size) iff a size is recorded and the file's length equals it, Size(name, recorded, actual) on a "
+                      "mismatch, MissingSize when unrecorded, Io when the file cannot be read; verify_checksum_internal uses the first recorded "
+                      "checksum of that algorithm, hashes by the entry's kind (patch filter for patches), Ok iff the strings are equal, "
+                      "Checksum(name, algo, expected, actual) otherwise, MissingChecksum when none; Distinfo::find_entry returns the entry of the "
+                      "SHORTEST recorded trailing sub-path (found_at), NotFound iff none.",
+        "level_note": VERUS_TRUST + "world functions File::open/metadata/hash_file/hash_patch (that w_digest is the standard digest is C13, not decided); "
+                      "std::path algebra (components, join, parent, equality) as uninterpreted functions with three axioms.",
+    },
     "C14": {
         "units": ["plist"],
         "design_ref": "DESIGN.md section 8 / C14",
